@@ -23,7 +23,9 @@ import (
 	"fmt"
 	"math/rand"
 	"runtime"
+	"sort"
 	"sync"
+	"sync/atomic"
 	"time"
 
 	"github.com/whatap/golib/util/list"
@@ -47,15 +49,15 @@ type pop struct {
 type cobj struct {
 	Type   string
 	Ctor   string
-	Hdr    Ev                  // conventions of the type for the Reset event
-	Names  []string            // the point operations it offers (event names)
-	Call   func(op pop) Ev     // performs the call, returns the projected result fields
-	SetMax func(n int)         // nil: no bound
-	Final  func() Ev           // full content after the history (single-threaded)
-	Unique bool                // elements are unique per call (list, queue)
-	NK     int                 // hot keys 1..NK
-	Lin    bool                // judged for linearizability (false: race observation only)
-	Pool   []string            // human readable
+	Hdr    Ev              // conventions of the type for the Reset event
+	Names  []string        // the point operations it offers (event names)
+	Call   func(op pop) Ev // performs the call, returns the projected result fields
+	SetMax func(n int)     // nil: no bound
+	Final  func() Ev       // full content after the history (single-threaded)
+	Unique bool            // elements are unique per call (list, queue)
+	NK     int             // hot keys 1..NK
+	Lin    bool            // judged for linearizability (false: race observation only)
+	Pool   []string        // human readable
 }
 
 func (o *cobj) has(n string) bool {
@@ -370,37 +372,21 @@ func genProgram(r *rand.Rand, co *cobj) *program {
 // how long a whole history may take
 var historyWatchdog = 15 * time.Second
 
-type hlog struct {
-	mu sync.Mutex
-	es []Ev
-}
-
-func (h *hlog) add(ev Ev) {
-	h.mu.Lock()
-	h.es = append(h.es, ev)
-	h.mu.Unlock()
-}
-
-func (h *hlog) snapshot() []Ev {
-	h.mu.Lock()
-	defer h.mu.Unlock()
-	out := make([]Ev, len(h.es))
-	for i, e := range h.es {
-		c := Ev{}
-		for k, v := range e {
-			c[k] = v
-		}
-		out[i] = c
-	}
-	return out
-}
-
-// runProgram executes the program on co.  stamped: Inv/Ret records; otherwise
-// nothing is recorded while the goroutines run.  Returns the log, the number
-// of panics and whether the goroutines all came back.
+// runProgram executes the program on co.  stamped: every call is bracketed by
+// two stamps drawn from ONE atomic counter (before the call, after the return)
+// and recorded in the calling goroutine's own log; the logs are merged by stamp
+// afterwards, so "Ret of A before Inv of B" in the history means A really
+// returned before B began.  Unstamped: nothing is recorded while the goroutines
+// run.  Returns the merged log, the number of panics and whether every goroutine
+// came back (if not, the log is not read: its writers may still be running).
 func runProgram(co *cobj, p *program, stamped bool, r *rand.Rand) (log []Ev, panics int, finished bool) {
-	h := &hlog{}
-	var pmu sync.Mutex
+	type rec struct {
+		stamp int64
+		ev    Ev
+	}
+	var clock int64
+	logs := make([][]rec, len(p.Threads)+1) // last: the prefix
+	npan := make([]int, len(p.Threads)+1)
 	yields := make([][]bool, len(p.Threads))
 	for t := range p.Threads {
 		yields[t] = make([]bool, len(p.Threads[t]))
@@ -408,54 +394,78 @@ func runProgram(co *cobj, p *program, stamped bool, r *rand.Rand) (log []Ev, pan
 			yields[t][i] = r.Intn(3) == 0
 		}
 	}
-	do := func(th int, op pop) bool {
+	do := func(slot, th int, op pop) bool {
 		var inv Ev
 		if stamped {
 			inv = Ev{"ev": "Inv", "p": th, "o": op.Name, "k": op.K, "v": op.V}
-			h.add(inv)
+			logs[slot] = append(logs[slot], rec{atomic.AddInt64(&clock, 1), inv})
 		}
 		var res Ev
 		msg := core.Guard(func() { res = co.Call(op) })
+		var st int64 // unstamped: no atomic either (it would order the goroutines for the race detector)
+		if stamped {
+			st = atomic.AddInt64(&clock, 1)
+		}
 		if msg != "" {
-			pmu.Lock()
-			panics++
-			pmu.Unlock()
+			npan[slot]++
 			if len(msg) > 160 {
 				msg = msg[:160]
 			}
-			h.add(Ev{"ev": "Panic", "p": th, "o": op.Name, "msg": msg})
+			logs[slot] = append(logs[slot], rec{st, Ev{"ev": "Panic", "p": th, "o": op.Name, "msg": msg}})
 			return false
 		}
 		if stamped {
-			h.mu.Lock()
 			for k, v := range res {
 				inv[k] = v
 			}
-			h.mu.Unlock()
-			h.add(Ev{"ev": "Ret", "p": th, "o": op.Name})
+			logs[slot] = append(logs[slot], rec{st, Ev{"ev": "Ret", "p": th, "o": op.Name}})
 		}
 		return true
+	}
+	merge := func() []Ev {
+		var all []rec
+		for _, l := range logs {
+			all = append(all, l...)
+		}
+		sort.Slice(all, func(i, j int) bool { return all[i].stamp < all[j].stamp })
+		out := make([]Ev, len(all))
+		for i, x := range all {
+			out[i] = x.ev
+		}
+		for _, n := range npan {
+			panics += n
+		}
+		return out
 	}
 	if p.Max > 0 {
 		co.SetMax(p.Max)
 	}
 	for _, op := range p.Prefix {
-		if !do(0, op) {
-			return h.snapshot(), panics, true
+		if !do(len(p.Threads), 0, op) {
+			return merge(), panics, true
 		}
 	}
 	start := make(chan struct{})
 	var wg sync.WaitGroup
+	var arrived int32
+	nth := int32(len(p.Threads))
 	for t := range p.Threads {
 		wg.Add(1)
 		go func(t int) {
 			defer wg.Done()
 			<-start
+			// spin barrier: the goroutines leave it together, each on its own processor
+			atomic.AddInt32(&arrived, 1)
+			for spins := 0; atomic.LoadInt32(&arrived) < nth && spins < 1<<22; spins++ {
+				if spins%1024 == 1023 {
+					runtime.Gosched()
+				}
+			}
 			for i, op := range p.Threads[t] {
 				if yields[t][i] {
 					runtime.Gosched()
 				}
-				if !do(t, op) {
+				if !do(t, t, op) {
 					return
 				}
 			}
@@ -466,11 +476,8 @@ func runProgram(co *cobj, p *program, stamped bool, r *rand.Rand) (log []Ev, pan
 	go func() { wg.Wait(); close(done) }()
 	select {
 	case <-done:
-		finished = true
+		return merge(), panics, true
 	case <-time.After(historyWatchdog):
+		return nil, 0, false
 	}
-	pmu.Lock()
-	np := panics
-	pmu.Unlock()
-	return h.snapshot(), np, finished
 }
